@@ -116,6 +116,49 @@ func (p *planner) pairFamilies(fns []string, n int) {
 		}
 		p.pair(fns, gen.Pair{S: s, T: t})
 	}
+	// runs of one orbit whose members differ in encoded width (s/S/ſ, k/K/U+212A, ß/ẞ, ǆ/ǅ/Ǆ are same-width controls): the needle a
+	// shorter run spelled with the members of ONE width only (all ASCII, or all wide), the haystack a longer run that mixes widths or
+	// uses only the other width, with and without text after the run: successive matches overlap unless the search resumes exactly
+	// after the matched text, whose byte length differs from the needle's (Count, Cut, Index-after-match, LastIndex from the end)
+	p.fam = "width-runs"
+	for i := 0; i < n/2; i++ {
+		orbs := [][]string{{"s", "S", "ſ"}, {"k", "K", "\u212a"}, {"ß", "ẞ"}, {"ǆ", "ǅ", "Ǆ"}, {"a", "A"}, {"σ", "ς", "Σ"}}
+		o := orbs[[]int{0, 0, 0, 1, 1, 1, 2, 2, 3, 4, 5}[g.R.Intn(11)]]
+		narrow, wide := o[:len(o)-1], o[len(o)-1:]
+		pick := func(set []string, m int) []byte {
+			var b []byte
+			for ; m > 0; m-- {
+				b = append(b, set[g.R.Intn(len(set))]...)
+			}
+			return b
+		}
+		k := 1 + g.R.Intn(3)
+		m := k + g.R.Intn(2*k+3)
+		var t, s []byte
+		switch g.R.Intn(4) {
+		case 0: // narrow needle, wide haystack
+			t, s = pick(narrow, k), pick(wide, m)
+		case 1: // wide needle, narrow haystack
+			t, s = pick(wide, k), pick(narrow, m)
+		case 2: // narrow needle, mixed haystack
+			t, s = pick(narrow, k), pick(o, m)
+		default:
+			t, s = pick(wide, k), pick(o, m)
+		}
+		switch g.R.Intn(4) {
+		case 0:
+			s = append(s, 'x')
+		case 1:
+			s = append(s, g.Str(1)...)
+		}
+		if g.R.Intn(2) == 0 {
+			s = append(g.Pad([]int{1, 2, 5, 9, 13, 14, 15, 16, 17, 30}[g.R.Intn(10)], g.R.Intn(2), nil), s...)
+		}
+		if g.Valid && (!utf8.Valid(s) || !utf8.Valid(t)) {
+			continue
+		}
+		p.pair(fns, gen.Pair{S: s, T: t})
+	}
 	// a match at the very end of the haystack whose needle is (much) longer in bytes: first rune of
 	// every width, then only runes that shrink when folded (K→k 3:1, ſ→s 2:1, ẞ→ß 3:2); the shape the
 	// search-window bound `t` must allow for
